@@ -367,7 +367,8 @@ theorem pipe_labels (U : Nat → Bytes) (hU : Function.Injective U) (s : State) 
       pipeProvider U s (some (.strf j)) = (s1, some p) ∧
       (labelQuads U p s1 qs).2 = some (qs.map (Quad.map σ)) ∧
       (∀ n ∈ nodesOf qs, ∀ m ∈ nodesOf qs, σ n = σ m → n = m) ∧
-      (∀ v, σ (some (.bnString j v)) = v) := by
+      (∀ v, σ (some (.bnString j v)) = v) ∧
+      (∀ n ∈ nodesOf qs, (∃ v, n = some (.bnString j v)) ∨ ∃ k, σ n = U k) := by
   have hpp := pipeProvider_strf U s j hj
   have hI1 : Inv (pipeProvider U s (some (.strf j))).1 := inv_after_propagate U hI j
   rw [hpp] at hI1
@@ -378,9 +379,16 @@ theorem pipe_labels (U : Nat → Bytes) (hU : Function.Injective U) (s : State) 
   have hE := labelQuads_ext U (.pass j (.uuid s.uuids.length)) s1 qs
   obtain ⟨hfix, hmap⟩ := labelQuads_later U _ s1 qs out hout _ (Ext.refl _)
   refine ⟨_, s1, sigmaOf U (labelQuads U (.pass j (.uuid s.uuids.length)) s1 qs).1 (.pass j (.uuid s.uuids.length)),
-    hpp, by rw [hout, hmap], ?_, ?_⟩
+    hpp, by rw [hout, hmap], ?_, ?_, ?_⟩
   · exact sigma_injective U hU (labelQuads_inv U _ hI1 qs) (good_ext hE hg) j _ hfix hcol
   · intro v
     exact sigmaOf_of_peek (peek_pass_own U _ j _ v)
+  · intro n hn
+    rcases pass_cases j n with hv | hno
+    · exact Or.inl hv
+    · right
+      have h := hfix n hn
+      rw [peek_pass_other U _ j _ n hno] at h
+      exact peek_uuid_label U (good_ext hE hg) n _ h
 
 end RdfModel.Proofs.C18
